@@ -90,6 +90,11 @@ func (c *compiler) updateEnterBlock(enter *enterBlock) {
 	if scope.dynLookup {
 		stashSize = len(scope.bindings)
 		enter.names = scope.makeNamesMap()
+		if enter.names == nil {
+			// A scope that is visible to a direct eval counts as one stash level for the references
+			// crossing it, so it must get a stash at run time even if it binds no names.
+			enter.names = map[unistring.String]uint32{}
+		}
 	} else {
 		for _, b := range scope.bindings {
 			if b.inStash {
